@@ -230,6 +230,10 @@ type Replay struct {
 	Sig      string          `json:"sig"`
 	Detail   string          `json:"detail"`
 	Shrunk   bool            `json:"minimised"`
+	// Intermittent: the same scenario shows the violation in some executions
+	// and not in others (the library's answer depends on something outside the
+	// scenario, e.g. map iteration order); replay retries up to 80 times.
+	Intermittent bool `json:"intermittent,omitempty"`
 	// Prelude: scenarios that must be executed in the same process before the
 	// failing one (the violation depends on state the library keeps between
 	// calls). Empty for ordinary, self-contained violations.
